@@ -236,7 +236,7 @@ def valid_prefix_len(pow_limit, genesis_hex, chain, known_valid=0):
 
 # ---- mining ---------------------------------------------------------------------------------------------------
 
-def mine(raw108, accept, start_nonce=0, max_tries=1 << 26):
+def mine(raw108, accept, start_nonce=0, max_tries=1 << 22):
     """find the first nonce >= start_nonce for which accept(pow_value) is true; -> (nonce, raw header)"""
     sha256, sha512, new = hashlib.sha256, hashlib.sha512, hashlib.new
     base = sha256(raw108)
